@@ -51,10 +51,12 @@ def run_ngram(case):
     m = NgramVectorizer(**kw)
     out = {}
     X = docs_of(case, "docs", enc)
+    prior_fit(case, m, out, lambda key: docs_of(case, key, enc))
     r = attempt(lambda: mat(m.fit_transform(X)))
     out["train"] = r
     if "err" in r:
         return out
+    prior_transforms(case, m, lambda D: [[enc(t) for t in d] for d in D])
     out["tokdict"] = sorted(([dec(l), int(i)] for l, i in m._token_dictionary_.items()), key=lambda p: p[1])
     # bare keys are reported as ints, tuple keys as lists
     out["cold"] = [[gram_key(k, dec), int(i)] for k, i in m.column_label_dictionary_.items()]
@@ -63,7 +65,76 @@ def run_ngram(case):
     X2s = [[t for t in d if t in m._token_dictionary_] for d in X2]
     out["transform_stripped"] = attempt(lambda: mat(m.transform(X2s)))
     out["fit_then_transform"] = attempt(lambda: mat(m.transform(X)))
+    out["transform_again"] = attempt(lambda: mat(m.transform(X2)))
     return out
+
+
+def prior_fit(case, m, out, data):
+    """the estimator object has a past: an earlier fit on other data (its outcome, even an exception, is irrelevant)"""
+    if case.get("prefit") is not None:
+        r = attempt(lambda: m.fit(data("prefit")) and None)
+        out["prefit_err"] = r["err"] if isinstance(r, dict) else None
+        attempt(lambda: m.transform(data("X2")) is None)     # ... and was used for a transform in that earlier life
+
+
+def prior_transforms(case, m, conv):
+    """the fitted model has been used before: earlier transform calls on other inputs"""
+    for D in case.get("pretransform") or []:
+        attempt(lambda: m.transform(conv(D)) is None)
+
+
+def snap_state(m, dec):
+    """every attribute of a unigram model that '+' or transform read: both column dictionaries, the token
+    dictionaries, the stored training matrix"""
+    def ld(d):
+        return sorted(([dec(l), int(i)] for l, i in d.items()), key=lambda p: (p[1], p[0]))
+
+    def idd(d):
+        return sorted([int(i), dec(l)] for i, l in d.items())
+    return {"label_dict": ld(m.column_label_dictionary_), "index_dict": idd(m.column_index_dictionary_),
+            "tok_dict": ld(m._token_dictionary_), "inv_dict": idd(m._inverse_token_dictionary_),
+            "train": attempt(lambda: mat(m._train_matrix))}
+
+
+def run_hist(case):
+    """A session on SHARED objects: the pool models are fitted once; ["merge", i, j] appends store[i] + store[j];
+    ["transform", i] calls store[i].transform(X2).  The state of every model is recorded when it is created, the state
+    of both operands after every merge, and the state + transform of every entry at the end."""
+    enc, dec = lab(case)
+    X2 = docs_of(case, "X2", enc)
+    store = [NgramVectorizer().fit([[enc(t) for t in d] for d in X]) for X in case["pool"]]
+    out = {"created": [snap_state(m, dec) for m in store], "steps": []}
+    for op in case["ops"]:
+        if op[0] == "transform":
+            m = store[op[1]]
+            out["steps"].append({"out": attempt(lambda: mat(m.transform(X2))) if m is not None else None})
+            continue
+        a, b = store[op[1]], store[op[2]]
+        if a is None or b is None:                     # an operand whose own merge raised
+            store.append(None)
+            out["created"].append(None)
+            out["steps"].append({"skipped": True})
+            continue
+        try:
+            c = a + b
+        except Exception as e:
+            store.append(None)
+            out["created"].append(None)
+            out["steps"].append({"err": type(e).__name__, "msg": str(e)[:200],
+                                 "operands": [snap_state(a, dec), snap_state(b, dec)]})
+            continue
+        store.append(c)
+        out["created"].append(snap_state(c, dec))
+        out["steps"].append({"operands": [snap_state(a, dec), snap_state(b, dec)]})
+    out["final"] = []
+    for m in store:
+        if m is None:
+            out["final"].append(None)
+            continue
+        f = snap_state(m, dec)
+        f["transform"] = attempt(lambda: mat(m.transform(X2)))
+        out["final"].append(f)
+    return {"hist": out}
 
 
 def run_add(case):
@@ -105,6 +176,7 @@ def run_skip(case):
     X = docs_of(case, "docs", enc)
     out = {}
     exact = case["kernel"] == "flat"
+    prior_fit(case, m, out, lambda key: docs_of(case, key, enc))
     r = attempt(lambda: mat(m.fit_transform(X), exact))
     out["train"] = r
     if "err" in r:
@@ -112,6 +184,7 @@ def run_skip(case):
     out["tokdict"] = sorted(([dec(l), int(i)] for l, i in m._token_dictionary_.items()), key=lambda p: p[1])
     out["radii"] = [int(x) for x in m._window_sizes]
     out["mask"] = [bool(x) for x in m._column_is_kept]
+    prior_transforms(case, m, lambda D: [[enc(t) for t in d] for d in D])
     # fitted column labels as pairs of token *labels*, in column order
     cid = m.column_index_dictionary_
     out["labels"] = [[dec(cid[i][0]), dec(cid[i][1])] for i in range(len(cid))] \
@@ -121,6 +194,7 @@ def run_skip(case):
     X2s = [[t for t in d if t in m._token_dictionary_] for d in X2]
     out["transform_stripped"] = attempt(lambda: mat(m.transform(X2s), exact))
     out["fit_then_transform"] = attempt(lambda: mat(m.transform(X), exact))
+    out["transform_again"] = attempt(lambda: mat(m.transform(X2), exact))
     return out
 
 
@@ -133,16 +207,21 @@ def run_edge(case):
         kw["column_label_dictionary"] = {enc(l): i for l, i in case["cd"]}
     m = EdgeListVectorizer(**kw)
 
-    def edges(key):
-        E = [(enc(r), enc(c), v) for r, c, v in case[key]]
+    def conv(L):
+        E = [(enc(r), enc(c), v) for r, c, v in L]
         if case.get("as_columns") and len(E) != 3:      # the documented 3 x N layout
             return [[e[0] for e in E], [e[1] for e in E], [e[2] for e in E]]
         return E
+
+    def edges(key):
+        return conv(case[key])
     out = {}
+    prior_fit(case, m, out, edges)
     r = attempt(lambda: mat(m.fit_transform(edges("edges"))))
     out["train"] = r
     if "err" in r:
         return out
+    prior_transforms(case, m, conv)
     out["rowdict"] = [[dec(l), int(i)] for l, i in m.row_label_dictionary_.items()]
     out["coldict"] = [[dec(l), int(i)] for l, i in m.column_label_dictionary_.items()]
     out["transform"] = attempt(lambda: mat(m.transform(edges("X2"))))
@@ -150,6 +229,7 @@ def run_edge(case):
             if r_ in m.row_label_dictionary_ and c_ in m.column_label_dictionary_]
     out["transform_stripped"] = attempt(lambda: mat(m.transform(keep))) if keep else None
     out["fit_then_transform"] = attempt(lambda: mat(m.transform(edges("edges"))))
+    out["transform_again"] = attempt(lambda: mat(m.transform(edges("X2"))))
     return out
 
 
@@ -157,7 +237,7 @@ def edges_rows(case, enc):
     return [(enc(r), enc(c), v) for r, c, v in case["X2"]]
 
 
-RUN = {"ngram": run_ngram, "add": run_add, "skip": run_skip, "edge": run_edge}
+RUN = {"ngram": run_ngram, "add": run_add, "skip": run_skip, "edge": run_edge, "hist": run_hist}
 
 cases = json.load(open(sys.argv[1]))
 res = []
